@@ -263,6 +263,8 @@ def main(argv=None):
             touched = r['incomplete'] or any(o['status'] in (UNDECIDED, UNCHECKED) for o in r['obligations']) \
                 or any(nm.startswith(tuple(r['functions'])) or nm.startswith(r['unit']) for nm, _w in regress)
             fn = getattr(contracts, 'REPLAYERS', {}).get(r['unit'])
+            if pid in ('C05', 'C06'):
+                fn = pid          # property-level native oracle (contracts.make_replay picks it)
             if not touched or fn is None or fn in seen:
                 continue
             seen.add(fn)
